@@ -6,6 +6,9 @@ TB = ("Coq 8.16.1 kernel incl. vm_compute (no native_compute); no axioms declare
       "extraction with ExtrOcamlBasic only + ocaml/driver.ml; C drivers harness/c/*.c; independent python oracles; "
       "hand-written models are tied to the C by differential execution on every run (see DESIGN.md section 6)")
 CHECKS = {
+ 'C16': dict(cat='proof', tech='Rocq proof (CRC-32C table/slicing-by-4/hardware loop = bit-serial definition for all strings, 4-byte burst theorem, varint/string codecs round trip + EOF strictness, block-size rule) + translation validation of the Murmur3/Spooky2 models and of vendored reference arrays',
+             text='Codec and checksum functions are proved equal to closed definitions for every input; hash models and the current binary are validated against 19818 vendored digests and 8 vendored arrays written by the pinned reference (check, fix after wiping each disk, parity rebuild byte-exact).',
+             ref='4/C16'),
  'C03': dict(cat='proof', tech='Rocq proof (MDS of the 6x251 Cauchy and 3x251 power matrices by polynomial root counting in MathComp; Gauss-Jordan without pivoting never meets a zero pivot; combination enumerator and sorting networks) + unit correspondence of raid_rec/raid_data/raid_check/raid_scan in all decoder families against the known original stripe',
              text='All 3.8e11 minors are settled by theorems, not enumeration; the decoder/validator models are executed against the real raid/*.c (int8, ssse3, avx2, dispatcher) on exhaustive small geometries and boundary-aimed large ones, the oracle being the original stripe.',
              ref='4/C03'),
